@@ -814,6 +814,19 @@ def _sink_returns(stmts):
                 and len(stmts[-2].targets) == 1 and isinstance(stmts[-2].targets[0], ast.Name) and stmts[-2].targets[0].id == stmts[-1].value.id:
             stmts = stmts[:-2] + [ast.copy_location(ast.Return(value=stmts[-2].value), stmts[-2])]
             changed = True
+        # `x = E; return (K, x)`: x is an element of the returned display and everything before it is a constant, a constant path or a plain name
+        elif len(stmts) >= 2 and isinstance(stmts[-1], ast.Return) and isinstance(stmts[-1].value, (ast.Tuple, ast.List)) and isinstance(stmts[-2], ast.Assign) \
+                and len(stmts[-2].targets) == 1 and isinstance(stmts[-2].targets[0], ast.Name):
+            x_ = stmts[-2].targets[0].id
+            elts = stmts[-1].value.elts
+            idx = [i_ for i_, e_ in enumerate(elts) if isinstance(e_, ast.Name) and e_.id == x_]
+            uses = sum(1 for n_ in ast.walk(stmts[-1].value) if isinstance(n_, ast.Name) and n_.id == x_)
+            if len(idx) == 1 and uses == 1 and all(_is_const(e_) or _stable_path(e_) or isinstance(e_, ast.Name) for e_ in elts[:idx[0]]) \
+                    and not any(isinstance(n_, ast.Name) and n_.id == x_ for n_ in ast.walk(stmts[-2].value)):
+                new_ret = copy.deepcopy(stmts[-1])
+                new_ret.value.elts[idx[0]] = stmts[-2].value
+                stmts = stmts[:-2] + [new_ret]
+                changed = True
     # N24: `if C: [log] return True else: [log] return False` -> `[if C: log else: log]; return C` (C a boolean expression over plain locals and
     # constant paths, so evaluating it a second time gives the same value; the branches hold nothing but expression statements)
     if stmts and isinstance(stmts[-1], ast.If):
@@ -1457,6 +1470,7 @@ class Normalizer:
         _dict_display_loops(fdef)
         self._comp_displays(fdef, modname, cname, state)
         _merge_dict_stores(fdef)
+        fdef.body = _sink_returns(fdef.body)       # again: a display completed above may now be returned through a temporary
         fdef.body = _drop_dead_defs(fdef, _flatten_blocks(self._stmts(fdef.body, modname, cname, stack, state)))
         _resplit_assigns(fdef.body)
         al_ = []
